@@ -243,6 +243,21 @@ theorem yes_carries_certificate (s : DS.DSymData) (f : Facts) (hf : FactsOf s f)
       exfalso
       exact stray_not_invariant s inv hinv hstray
 
+/-- **yes_cover_is_a_branchfree_oriented_covering.**  For a valid D-symbol (`ValidSym`: far
+    operations commute) the cover behind a `Yes` of the model is, by Props/C15
+    (`ptc_result_is_oriented`, `ptc_result_is_branchfree`), oriented, a valid complete symbol with
+    branching number 1 on every adjacent 2-orbit. -/
+theorem yes_cover_is_a_branchfree_oriented_covering (s : DS.DSymData) (f : Facts) (hf : FactsOf s f)
+    (hs : DS.ValidSym s) (hsz : 1 ≤ s.size)
+    (hF : ∀ oc fg, DS.orientedCover s = .ok oc → FG.fundamentalGroup oc = .ok fg → D3.FuelOK fg)
+    (hyes : decideVerdict f = .yes) :
+    ∃ cov, D3.pseudoToroidalCover s = .ok (some cov) ∧ cov.view.isOriented = true ∧
+      DS.ValidSym cov ∧ cov.isCompletePartial = true ∧
+      ∀ i d, i < 3 → 1 ≤ d → d ≤ cov.size → cov.vPartial i (i + 1) d = .ok (some 1) := by
+  obtain ⟨_, _, _, cov, _, _, _, _, ho, _, _⟩ := yes_carries_certificate s f hf hs.toValidTables hsz hF hyes
+  obtain ⟨hb, hv, hc, _⟩ := C15.ptc_result_is_branchfree s cov hs hsz hF ho
+  exact ⟨cov, ho, C15.ptc_result_is_oriented s cov hs.toValidTables hsz hF ho, hv, hc, hb⟩
+
 /-! ### open (not theorems): the statements, for the record -/
 
 /-- `t` is `s` with the chambers renumbered by `p` -/
